@@ -399,9 +399,23 @@ def judge_formats(ctx, rec, mf):
     case = {"history": h}
     qs = [e for e in h["events"] if "q" in e]
     reals = [r for e, r in zip(qs, rec["real"]) if e["q"][1] not in ("__nonmapping__", "__unhashable__")]
+    # queries whose tag is carried by two eligible classes at that moment: the statement's "unique eligible class"
+    # is not defined there (which of them a rescan leaves in the registry depends on the subclass walk order)
+    ambiguous, seen = [], []
+    for e in h["events"]:
+        if "d" in e:
+            seen.append([e["d"][0], e["d"][1], model_tag(h, e["d"])])
+        elif "q" in e and e["q"][1] not in ("__nonmapping__", "__unhashable__"):
+            root, t = e["q"]
+            par = {c[0]: c[1] for c in seen}
+            elig = [c for c in seen if (h["sub"] and root in chain(par, c[0])[1:]) or (h["sup"] and c[0] == root)]
+            ambiguous.append(t is not None and sum(1 for c in elig if c[2] == t) > 1)
     for k, (o, r) in enumerate(zip(mf["outs"], reals)):
         if r.startswith("missingfield:"):
             continue   # judged against the statement in `judge`
+        if k < len(ambiguous) and ambiguous[k]:
+            ctx.bump("ambiguous-tag-skipped")
+            continue
         if o.startswith("inst:"):
             _i, c, b = o.split(":")
             exp = f"inst:{c}" if c == b else "error:instance of"
